@@ -106,7 +106,7 @@ def _kernel_case(spec):
     for i in range(spec["n"]):
         n = int(rng.integers(1, 300))
         m = int(rng.integers(1, 400))
-        sites = rng.uniform(-1, 1, (n, 2)) * 10.0 ** rng.uniform(-2, 2)
+        sites = rng.uniform(-1, 1, (n, 2)) * 10.0 ** (rng.uniform(-2, 2) if i % 3 else rng.uniform(-9, -3))  # (every third set: tiny numbers, e.g. lengths in metres)
         pts = rng.uniform(-1.2, 1.2, (m, 2)) * np.abs(sites).max()
         if rng.random() < 0.3 and n > 2:
             # edge centres of pairs of sites (the geometry the solver uses)
@@ -209,9 +209,14 @@ def run_case(spec):
         if r0.exception is not None or r0.solution is None:
             return {"status": "harness_error", "error": "first-generation run failed: " + repr(r0.exception)[:200]}
         loaded = tdgl.Solution.from_hdf5(r0.solution.path)
+        seed_fields = ("psi", "mu", "supercurrent", "normal_current", "induced_vector_potential")
+        seed_before = {f: simmon.h(np.asarray(getattr(loaded.tdgl_data, f))) for f in seed_fields}
         spec = copy.deepcopy(spec)
         spec["kind"] = "screening"
         spec["second_generation"] = True
+        # the second generation is driven differently (other field): the seed must still describe ITS OWN run afterwards
+        if "B" in spec["drive"]["A"]:
+            spec["drive"]["A"]["B"] = 1.5 * spec["drive"]["A"]["B"]
         run_kwargs = dict(device=r0.device, seed_solution=loaded, options_obj=loaded.options)
     out = S.run_sim_case(spec, "C13", extra_listeners=[tm], post=post, **run_kwargs)
     if run_kwargs:
@@ -219,6 +224,12 @@ def run_case(spec):
 
         shutil.rmtree(r0.outdir, ignore_errors=True)
         out.setdefault("counters", {})["second_generation_runs" if spec.get("second_generation") else "seeded_screening_off_runs"] = 1
+        if spec.get("second_generation") and "violations" in out:
+            seed_after = {f: simmon.h(np.asarray(getattr(loaded.tdgl_data, f))) for f in seed_fields}
+            out["counters"]["seed_immutability_checks"] = 1
+            if seed_after != seed_before:
+                out["violations"].append({"kind": "seed_solution_mutated_by_run", "mechanism": "seed_solution_mutated",
+                                          "detail": {"fields": [f for f in seed_fields if seed_before[f] != seed_after[f]]}})
     if out.get("status") == "harness_error":
         return out
     C = out["counters"]
